@@ -39,7 +39,7 @@ SPEC = dict(
           "Jan 1, leap year?) classes of year boundaries crossed + distinct mis-pairings + bump outcome classes"),
     assumptions=["packaging decides PEP 440 order of rendered texts; R1 supplies the integer tuples",
                  "a refusal (e.g. week 53, known finding of C02/C05) is not a backwards step"],
-    required=["day_pairs_rendered", "cli_dates", "bump_pairs", "bump_pairs_new_before_old", "bump_pairs_from_boundary_days", "bump_pin_date_cases", "mispairings_refused_by_test",
+    required=["day_pairs_rendered", "cli_dates", "bump_pairs", "bump_pairs_new_before_old", "bump_pairs_from_boundary_days", "bump_pin_date_cases", "mispairings_refused_in_file_patterns", "mispairings_refused_by_test",
               "mispairings_refused_by_loader", "mispairings_shown_non_monotone"],
     anchors=[("v2version", "cal_info"), ("v2version", "is_valid_week_pattern"), ("v2version", "_is_cal_gt"),
              ("config", "_validate_version_with_pattern")],
@@ -67,6 +67,7 @@ def cases(ctx):
     for i, p in enumerate(mispaired_patterns()):
         if ctx.mine(i):
             yield {"kind": "mispair", "pattern": p}
+            yield {"kind": "mispair-file", "pattern": p}
 
 
 def vkey(text):
@@ -283,8 +284,34 @@ def run_mispair(ctx, case):
             harness.rm_dir(dpath)
 
 
+def run_mispair_file_pattern(ctx, case):
+    """The same pairing as a FILE pattern (partial pattern of a coherent version pattern): rejected as well."""
+    p = case["pattern"]
+    ast = ref.parse_pattern(p)
+    st = dict(ref.default_state())
+    st.update(ref.cal_from_date(dt.date(2021, 6, 15)))
+    text = ref.render(ast, st)
+    cfg = ('[bumpver]\ncurrent_version = "2021.06.15.1001"\nversion_pattern = "YYYY.0M.0D.BUILD"\n\n[bumpver.file_patterns]\n'
+           '"bumpver.toml" = [\'current_version = "{version}"\']\n' + f'"notes.txt" = ["stamp {p} ;"]\n')
+    dpath = harness.new_project({"bumpver.toml": cfg, "notes.txt": f"stamp {text} ;\n"})
+    try:
+        before = harness.snapshot(dpath)
+        r = harness.invoke(["update", "--no-fetch", "--date", "2022-01-01"], cwd=dpath)
+        ctx.evaluated(("mispair-file-pattern", p))
+        if r.exit_code == 0 or harness.snapshot(dpath) != before:
+            ctx.violation("mispairing_accepted_in_file_pattern", f"file pattern 'stamp {p} ;' under version pattern "
+                          f"YYYY.0M.0D.BUILD: update exit {r.exit_code}, notes.txt = "
+                          f"{harness.snapshot(dpath).get('notes.txt')!r}", case=case)
+        else:
+            ctx.counters["mispairings_refused_in_file_patterns"] += 1
+    finally:
+        harness.rm_dir(dpath)
+
+
 def run_case(ctx, case):
     k = case["kind"]
+    if k == "mispair-file":
+        return run_mispair_file_pattern(ctx, case)
     if k == "lib":
         return run_lib(ctx, case)
     if k == "cli":
